@@ -647,6 +647,8 @@ impl<'a> VisitMut for Norm<'a> {
             old = out;
         }
         for mut s in old {
+            // R-NESTEDFN: fn items nested in a body are scope-level declarations; they are extracted by their own `@fn outer::inner`
+            if let Stmt::Item(Item::Fn(_)) = &s { self.bump("R-NESTEDFN"); continue; }
             // pre-anchors
             let mut before: Vec<Stmt> = vec![];
             let mut after: Vec<Stmt> = vec![];
@@ -875,6 +877,13 @@ impl<'a> VisitMut for Norm<'a> {
             Expr::Closure(c) if c.asyncness.is_some() => {
                 c.asyncness = None;
                 self.bump("R-ASYNC");
+            }
+            Expr::Lit(ExprLit { lit: Lit::ByteStr(bs), .. }) => {
+                // R-BYTESTR: b"ab" -> (&[97u8, 98u8])  (same type &[u8; N], contents visible to Verus)
+                let elems: Vec<LitInt> = bs.value().iter().map(|b| LitInt::new(&format!("{}u8", b), Span::call_site())).collect();
+                *e = parse_quote!((&[#(#elems),*]));
+                self.bump("R-BYTESTR");
+                return;
             }
             Expr::Await(a) => {
                 let base = (*a.base).clone();
@@ -1173,6 +1182,20 @@ impl<'a> VisitMut for Norm<'a> {
                     blk.stmts.extend(inner_hoisted);
                     blk.stmts.extend(self.anchor(&format!("closure{}.start", n)));
                     match &**body { Expr::Block(b) if b.label.is_none() => blk.stmts.extend(b.block.stmts.clone()), other => blk.stmts.push(Stmt::Expr(other.clone(), None)) }
+                    // closureK.ret: bind the closure's tail expression to its declared ret name, weave, return it
+                    let ret_anchor = self.anchor(&format!("closure{}.ret", n));
+                    if !ret_anchor.is_empty() {
+                        let rname = cs.ret.split(':').next().unwrap_or("").trim().to_string();
+                        if let (Some(Stmt::Expr(_, None)), Ok(rn)) = (blk.stmts.last(), parse_str::<Ident>(&rname)) {
+                            let Some(Stmt::Expr(tail, None)) = blk.stmts.pop() else { unreachable!() };
+                            blk.stmts.push(parse_quote!(let #rn = #tail;));
+                            blk.stmts.extend(ret_anchor);
+                            blk.stmts.push(Stmt::Expr(parse_quote!(#rn), None));
+                            self.bump("R-RETBIND");
+                        } else {
+                            self.errors.push(format!("closure{}.ret in {}: closure has no tail expression or no ret(name: T)", n, self.fname));
+                        }
+                    }
                     c.body = Box::new(Expr::Block(ExprBlock { attrs: vec![], label: None, block: blk }));
                     c.output = ReturnType::Default;
                     let var = Ident::new(&format!("__c{}", bn), Span::call_site());
@@ -1311,6 +1334,18 @@ impl<'a> VisitMut for Norm<'a> {
                                             }
                                         }
                                     }
+                                }
+                            }
+                        }
+                        "read_to_end" if mc.args.len() == 1 => {
+                            // R-ASYNCIO: `S.take(N).read_to_end(P)` -> `vx_take_read_to_end(S, N, P)` (futures AsyncReadExt adaptor pair)
+                            let mut inner = &*mc.receiver;
+                            while let Expr::Paren(p) = inner { inner = &*p.expr; }
+                            if let Expr::MethodCall(tk) = inner {
+                                if tk.method == "take" && tk.args.len() == 1 {
+                                    let (src, n, buf) = (&tk.receiver, &tk.args[0], &mc.args[0]);
+                                    replace = Some(parse_quote!(vx_take_read_to_end(#src, #n, #buf)));
+                                    self.bump("R-ASYNCIO");
                                 }
                             }
                         }
